@@ -63,6 +63,66 @@ class Pattern:
         return f"Pattern({self.src!r})"
 
 
+# simple callee name -> positional parameter names (without self/cls); filled by check.py from the source model for repository callables whose name has one
+# parameter list package-wide, plus a few library callables whose first parameters acryo passes both ways
+SIGNATURES: dict[str, list[str]] = {}
+EXTERNAL_SIGNATURES = {
+    "write_csv": [["file"]], "write_parquet": [["file"]], "read_csv": [["source"]], "read_parquet": [["source"]],
+}
+
+
+def set_signatures(table: dict):
+    SIGNATURES.clear()
+    SIGNATURES.update(EXTERNAL_SIGNATURES)
+    SIGNATURES.update(table)
+
+
+def _signature_of(call: ast.Call):
+    f = call.func
+    name = f.attr if isinstance(f, ast.Attribute) else (f.id if isinstance(f, ast.Name) else None)
+    if isinstance(f, ast.Attribute) and isinstance(f.value, ast.Name) and (f.value.id + "." + f.attr) in SIGNATURES:
+        return SIGNATURES[f.value.id + "." + f.attr]
+    return SIGNATURES.get(name) if name else None
+
+
+def _match_bound(p: ast.Call, n: ast.Call, sig, b, expanded, exp):
+    """Match two calls of a callee with known positional parameter names.  Returns None when the comparison does not apply (starred arguments)."""
+    if any(isinstance(a, ast.Starred) for a in list(p.args) + list(n.args)):
+        return None
+    pargs = list(p.args)
+    rest = False
+    if pargs and _is_ellipsis(pargs[-1]):
+        pargs = pargs[:-1]
+        rest = True
+    pkeywords = [k for k in p.keywords if not (k.arg is None and isinstance(k.value, ast.Name) and k.value.id == "__REST__")]
+    if len(pkeywords) != len(p.keywords):
+        rest = True
+    if any(k.arg is None for k in pkeywords) or any(k.arg is None for k in n.keywords):
+        return None
+    if len(pargs) > len(sig) or len(n.args) > len(sig):
+        return None
+
+    def bind(args, kws):
+        d = {}
+        for name, a in zip(sig, args):
+            d[name] = a
+        for k in kws:
+            if k.arg in d:
+                return None
+            d[k.arg] = k.value
+        return d
+
+    pd, nd = bind(pargs, pkeywords), bind(list(n.args), n.keywords)
+    if pd is None or nd is None:
+        return None
+    for name, pv in pd.items():
+        if name not in nd or not match(pv, nd[name], b, expanded, exp):
+            return False
+    if not rest and set(nd) != set(pd):
+        return False
+    return True
+
+
 def _mv(n):
     if isinstance(n, ast.Name):
         if n.id.startswith("__MVE_") and n.id.endswith("__"):
@@ -139,6 +199,22 @@ def match(p, n, b: dict, expanded: bool = False, exp=None) -> bool:
         if isinstance(p, ast.Call):
             if not match(p.func, n.func, b, expanded, exp):
                 return False
+            sigs = _signature_of(n)
+            if sigs:
+                # the callee's parameter list is known (one candidate per definition of that name): compare the calls as parameter -> argument bindings, so
+                # `f(a, b)`, `f(a, y=b)` and `f(x=a, y=b)` are the same call
+                applicable = False
+                for sig in sigs:
+                    b2 = dict(b)
+                    r = _match_bound(p, n, sig, b2, expanded, exp)
+                    if r is None:
+                        continue
+                    applicable = True
+                    if r:
+                        b.update(b2)
+                        return True
+                if applicable:
+                    return False
             pargs = list(p.args)
             rest = False
             if pargs and _is_ellipsis(pargs[-1]):
